@@ -186,10 +186,16 @@ func (s *Sim) FaultsOfKind(kind string) []Fault {
 // random suffixes of temporary files.
 var scratchNames = regexp.MustCompile(`/dev/shm/verif-[A-Za-z0-9]+-[A-Za-z0-9-]*[0-9]{6,}(/data-[0-9]+)?|[0-9]{6,}`)
 
+// sessionNames matches session identifiers (drawn from crypto/rand by mutagen).
+var sessionNames = regexp.MustCompile(`sync_[0-9A-Za-z]{20,}`)
+
 func (s *Sim) Logf(label, format string, args ...any) {
 	line := label + ": " + fmt.Sprintf(format, args...)
 	if strings.Contains(line, "/dev/shm/verif-") {
 		line = scratchNames.ReplaceAllString(line, "*")
+	}
+	if strings.Contains(line, "sync_") {
+		line = sessionNames.ReplaceAllString(line, "sync_*")
 	}
 	s.mu.Lock()
 	if s.plain {
